@@ -276,7 +276,7 @@ def monitor(case, out):
 
 def nontrivial(case, out):
     """a case exercises the matching logic when some connection ended with requests in flight or a connect failed"""
-    return any(x in out for x in (':closed', ':werr', ':rerr', ':cfail', ':drop')) or case.startswith('fan')
+    return any(x in out for x in (':closed', ':werr', ':rerr', ':cfail', ':drop')) or case.startswith('fan') or ',q' in case or ' P' in case
 
 
 def model_case(case, out, hoisted=1):
@@ -296,7 +296,7 @@ def run(chk):
                        'connections: close after k requests, mid-reply break at a byte offset, non-RESP bytes, stall, refuse, injected write error, reply '
                        'fragmentation, latency, tiny pipe buffers, write-side back pressure: a scripted Pending from the sink\'s poll_ready and > 8 KB payloads into tiny pipes) through the real sender/backend stack (mode c) or the real handle_session over loopback TCP '
                        '(mode s); non-trivial = distinct case in which at least one connection ended with an error/EOF/timeout or a connect was refused '
-                       '(so retry / cancel / error paths ran), or a ReqTask::set_result fan-out case')
+                       '(so retry / cancel / error paths ran), or the sink applied back pressure (q / P options), or a ReqTask::set_result fan-out case')
     if not ok:
         return
     quick = chk.tier == 'quick'
